@@ -11,6 +11,48 @@ use serde::{Deserialize, Serialize};
 use serde_json::Number;
 use thiserror::Error;
 
+/// the storage engine refuses deeper nested queries, and the size of the generated statement doubles with every level
+pub const MAX_QUERY_NESTING: usize = 12;
+/// keeps the recursive parsers well inside the stack of the calling thread
+pub const MAX_MUTATION_NESTING: usize = 64;
+
+///
+/// refuse a request whose entities are nested deeper than max_nesting, before it is given to the recursive parser
+/// braces inside string literals are ignored
+///
+pub fn check_nesting(request: &str, max_nesting: usize) -> Result<(), Error> {
+    let mut depth: usize = 0;
+    let mut in_string = false;
+    let mut chars = request.chars();
+    while let Some(c) = chars.next() {
+        if in_string {
+            match c {
+                '\\' => {
+                    chars.next();
+                }
+                '"' => in_string = false,
+                _ => {}
+            }
+            continue;
+        }
+        match c {
+            '"' => in_string = true,
+            '{' => {
+                depth += 1;
+                if depth > max_nesting {
+                    return Err(Error::InvalidQuery(format!(
+                        "entities are nested too deeply, the maximum is {}",
+                        max_nesting
+                    )));
+                }
+            }
+            '}' => depth = depth.saturating_sub(1),
+            _ => {}
+        }
+    }
+    Ok(())
+}
+
 ///
 /// decode the escape sequences that the grammars accept in a string literal:
 /// \\" \\\\ \\/ \\b \\f \\n \\r \\t and \\uXXXX
